@@ -58,12 +58,12 @@ Definition step (E : lenv) (it : item) (st : hst) : option hst :=
               else if String.eqb o "JUMP" then
                 match top with
                 | Some l => if target_ok E l (h - 1) then Some Dead else None
-                | None => Some Dead
+                | None => None      (* dynamic jump: not checkable *)
                 end
               else if String.eqb o "JUMPI" then
                 match top with
                 | Some l => if target_ok E l (h - 2) then Some (Live (h - 2) None) else None
-                | None => Some (Live (h - 2) None)
+                | None => None
                 end
               else if terminal o then Some Dead
               else Some (Live (h - ins + outs) None)
@@ -231,14 +231,11 @@ Proof.
   exists (Live (S h) None). split; [|right; reflexivity]. cbn. rewrite Nat.sub_0_r, Nat.add_1_r. reflexivity.
 Qed.
 (* an arbitrary EVM opcode used as IR node *)
-Lemma FlowOK_opcode E U ins outs h : effect U = Some (ins, outs) -> FlowOK E [Op U] (h + ins) (h + outs).
+Lemma FlowOK_opcode E U ins outs h : effect U = Some (ins, outs) ->
+  String.eqb U "JUMP" = false -> String.eqb U "JUMPI" = false -> FlowOK E [Op U] (h + ins) (h + outs).
 Proof.
-  intros Ef st [->| ->]; [exists Dead; split; [reflexivity | left; reflexivity]|].
-  cbn [flow step]. rewrite Ef. destruct (Nat.ltb (h + ins) ins) eqn:Lt; [apply Nat.ltb_lt in Lt; lia|].
-  destruct (String.eqb U "JUMP") eqn:J1. { exists Dead. split; [reflexivity | left; reflexivity]. }
-  destruct (String.eqb U "JUMPI") eqn:J2.
-  { apply String.eqb_eq in J2. subst U. vm_compute in Ef. inversion Ef; subst. exists (Live (h + 2 - 2) None).
-    split; [reflexivity|]. right. f_equal. lia. }
+  intros Ef J1 J2 st [->| ->]; [exists Dead; split; [reflexivity | left; reflexivity]|].
+  cbn [flow step]. rewrite Ef, J1, J2. destruct (Nat.ltb (h + ins) ins) eqn:Lt; [apply Nat.ltb_lt in Lt; lia|].
   destruct (terminal U). { exists Dead. split; [reflexivity | left; reflexivity]. }
   exists (Live (h + ins - ins + outs) None). split; [reflexivity|]. right. f_equal. lia.
 Qed.
@@ -248,11 +245,15 @@ Definition v01 (e : expr) : Prop := valency e = 0 \/ valency e = 1.
 Fixpoint wv (lv : bool) (e : expr) : Prop :=
   match e with
   | Lit _ => True
-  | Var x => match assoc (upper x) evm_opcodes with Some _ => effect (upper x) = Some (0, 1) | None => True end
+  | Var x => match assoc (upper x) evm_opcodes with
+             | Some _ => effect (upper x) = Some (0, 1) /\ String.eqb (upper x) "JUMP" = false /\ String.eqb (upper x) "JUMPI" = false
+             | None => True
+             end
   | Node op args =>
       match assoc (upper op) evm_opcodes with
       | Some (ins, outs) =>
           effect (upper op) = Some (ins, outs) /\ List.length args = ins /\
+          (String.eqb (upper op) "JUMP" = false /\ String.eqb (upper op) "JUMPI" = false) /\
           (fix go (l : list expr) : Prop := match l with [] => True | x :: t => (wv false x /\ valency x = 1) /\ go t end) args
       | None =>
           if String.eqb op "set" then match args with [Var _; v] => wv false v /\ valency v = 1 | _ => False end
@@ -536,7 +537,7 @@ Proof.
   - (* leaf: opcode without arguments or with-variable *)
     cbn [lower wv] in H, WV. destruct (assoc (upper x) evm_opcodes) as [p|] eqn:Ox.
     + inversion H; subst. fin (mono_refl s') R. intros E _ _ _ _. cbn [valency].
-      pose proof (FlowOK_opcode E (upper x) 0 1 h WV) as F. rewrite Nat.add_0_r in F. exact F.
+      destruct WV as (Ef & J1 & J2). pose proof (FlowOK_opcode E (upper x) 0 1 h Ef J1 J2) as F. rewrite Nat.add_0_r in F. exact F.
     + destruct (assoc x wa) as [hx|] eqn:Ax; [|discriminate].
       destruct (Nat.ltb 16 (h - hx)) eqn:D; [discriminate|]. apply Nat.ltb_ge in D. inversion H; subst.
       fin (mono_refl s') R. intros E _ SO _ _. specialize (SO x hx Ax). cbn [valency].
@@ -544,11 +545,11 @@ Proof.
       pose proof (FlowOK_one E _ _ _ h Ef P ltac:(lia)) as F. replace (h - (h - hx) + S (h - hx)) with (h + 1) in F by lia. exact F.
   - cbn [lower wv] in H, WV. destruct (assoc (upper op) evm_opcodes) as [[ins outs]|] eqn:Oop.
     + (* EVM opcode: arguments in reverse order at increasing heights, then the opcode *)
-      destruct WV as (Ef & Ln & G). apply go_forall in G. apply Forall_rev in G.
+      destruct WV as (Ef & Ln & (J1 & J2) & G). apply go_forall in G. apply Forall_rev in G.
       destruct (many_ (lower f wa bd) (rev args) h s) as [[am s1]|] eqn:Em; cbn [bind] in H; [|discriminate].
       inversion H; subst. destruct (many_spec _ _ _ (IH wa bd) _ _ _ _ _ Em G R) as (M & R1 & F).
       fin M R1. intros E EO SO BO _. cbn [valency]. rewrite (evm_in_ir _ _ Oop).
-      eapply FlowOK_app; [apply F; auto|]. rewrite List.rev_length. apply FlowOK_opcode. exact Ef.
+      eapply FlowOK_app; [apply F; auto|]. rewrite List.rev_length. apply FlowOK_opcode; assumption.
     + revert H WV.
       destruct (String.eqb op "set") eqn:E1.
       { apply String.eqb_eq in E1. subst op. intros H WV. clear Oop.
